@@ -202,10 +202,6 @@ impl Decider {
         }
         None
     }
-
-    pub fn all_applied(&self) -> bool {
-        self.applied.iter().all(|a| *a)
-    }
 }
 
 // ---------------------------------------------------------------------------------------------
@@ -264,6 +260,7 @@ impl Board {
 // ---------------------------------------------------------------------------------------------
 
 pub struct Gate {
+    #[allow(dead_code)]
     pub side: usize,
     pub kind: Dev,
     pub waker: Option<Waker>,
@@ -297,10 +294,6 @@ impl Gates {
             }
         }
         n
-    }
-
-    pub fn closed(&self) -> usize {
-        self.0.iter().filter(|g| !g.open).count()
     }
 }
 
